@@ -281,6 +281,9 @@ MUST_FIRE += [
     ("m109", ["C08"], ["G4"], rep1(S + "rotate_stabilizer_into_state.py", "            if curr_stab.z.any() and not allow_redundant:", "            if False and curr_stab.z.any() and not allow_redundant:"), "redundancy check switched off"),
     ("m110", ["C10"], ["W2"], rep1(S + "tomography.py", '        circuit.metadata["readout info"] = ReadoutInfo(readout_circuit, preparation_circuit.num_qubits, measured_qubits)', '        circuit.metadata["readout info"] = ReadoutInfo(preparation_circuit.num_qubits, readout_circuit, measured_qubits)'), "readout record built with circuit and register width exchanged"),
     ("m111", ["C10", "C11"], ["W2", "W1"], rep1(S + "tomography.py", "        circuit.measure_all()\n        if circuit.metadata is None:", "        if circuit.metadata is None:"), "tomography circuits are never measured"),
+    ("m112", ["C11"], ["W11"], rep1(S + "tomography.py", "        circuit_result = CircuitResult(counts, qubits)  # type: ignore", "        circuit_result = CircuitResult(qubits, qubits)  # type: ignore"), "counts parser fed with the qubit list instead of the counts"),
+    ("m113", ["C10", "C12"], ["W5"], rep1(S + "tomography.py", "            z_pauli = z_pauli_from_bitstring(num_qubits, i)", "            z_pauli = z_pauli_from_bitstring(counts, i)"), "Z mask built with the counts dictionary as width"),
+    ("m114", ["C10", "C12"], ["W14"], rep1(S + "tomography.py", "        return full_expectation_values", "        return None"), "embedded expectation values computed but not returned"),
     ("m95", ["C19"], ["K12"], rep1(S + "graph.py", "    def compress(self) -> int:", "    def compress(self) -> int:\n        if getattr(self, \"_id\", None) is not None:\n            return self._id\n        self._id = self._compress()\n        return self._id\n\n    def _compress(self) -> int:"), "graph id remembered by the object and never invalidated"),
     ("m72", ["C13"], ["A3"], rep1(S + "circuit_lookup.py", "result.circuits = [circuit.copy() for circuit in self.circuits]", "result.circuits = list(self.circuits)"), "fresh list of the cached circuits"),
 ]
